@@ -36,7 +36,11 @@ def build_base(profile, mode, base):
             continue
         if ev[0] == 'ack' and profile == 'sub':
             continue
-        w.apply(ev)
+        try:
+            w.apply(ev)
+        except Exception as e:      # noqa
+            from ..explorer import PrefixBroken
+            raise PrefixBroken('base %s/%s/%s: scripted event %r failed with %s: %s' % (profile, mode, base, ev, type(e).__name__, e))
     return w
 
 
@@ -295,6 +299,15 @@ def plan(ctx):
 
 
 def run(ctx):
+    from ..explorer import PrefixBroken
+    try:
+        return _run(ctx)
+    except PrefixBroken as e:
+        ctx.violation({'kind': 'prefix', 'signature': 'base-history-misbehaves', 'detail': str(e),
+                       'history': [['base', str(e)[:80]]], 'scenario': {'name': 'inject', 'profile': 'pubsub', 'mode': 'sync', 'base': 'busy'}})
+
+
+def _run(ctx):
     ctx.rule = ('exhaustive injection: every input of every family (all strings <= 3/4/5 bytes over a 16-symbol alphabet, '
                 'every first byte x short bodies, every single-byte mutation / truncation / extension of every valid '
                 'broker packet, invalid UTF-8) into every profile x transport mode x base state, followed by the end of '
